@@ -99,6 +99,9 @@ var richIdent atomic.Bool
 // connection still identify the parked goroutine (a task is inside one call at a time). Off by default.
 var identNoCmd atomic.Bool
 
+// rwLockSeam hands the acquisition of sync.RWMutexes announced through VerifHooks.RWLock to the scheduler. Off by default.
+var rwLockSeam atomic.Bool
+
 // queueOwner finds the connection whose pipe owns a flow buffer or a ring slot (registered multiplexers only).
 func queueOwner(obj any) string {
 	muxReg.mu.Lock()
@@ -266,6 +269,37 @@ func installHooks() {
 			return // rueidis' own wake-up PINGs (Close, clean-up): not part of any herd the workload creates
 		}
 		s.Park(yieldIdentity(ctx, site, obj, cmd))
+	}
+	// The SHA-1 lock of a Lua script is held across the SCRIPT LOAD round trip. With rwLockSeam on (opt-in, per run)
+	// its acquisition is the scheduler's: a scheduling point before a write lock is taken (the place where two first
+	// callers that both read an empty SHA meet), and a waiter polls once per scheduling decision instead of blocking
+	// on the sync.RWMutex, which synctest would not see as durably blocked.
+	VerifHooks.RWLock = func(ctx context.Context, mu *sync.RWMutex, write bool) bool {
+		s := curSim.Load()
+		if s == nil || !rwLockSeam.Load() || s.IsDown() {
+			return false
+		}
+		if write {
+			s.Park(yieldIdentity(ctx, "rw.lock", nil, nil))
+			for !mu.TryLock() {
+				if s.IsDown() {
+					mu.Lock()
+					return true
+				}
+				s.Stats["rwlock.write-wait"]++
+				s.Park(yieldIdentity(ctx, "rw.lock.wait", nil, nil))
+			}
+			return true
+		}
+		for !mu.TryRLock() {
+			if s.IsDown() {
+				mu.RLock()
+				return true
+			}
+			s.Stats["rwlock.read-wait"]++
+			s.Park(yieldIdentity(ctx, "rw.rlock.wait", nil, nil))
+		}
+		return true
 	}
 	// Ring slots and pools get channel-based lockers: a goroutine blocked on them is
 	// durably blocked for synctest, which a goroutine blocked on sync.Mutex is not.
@@ -559,6 +593,7 @@ func VerifSetSim(s *sched.Sim, seed uint64) {
 		muxRegReset(0)
 		richIdent.Store(false)
 		identNoCmd.Store(false)
+		rwLockSeam.Store(false)
 		spinSettle.on.Store(false)
 		yieldFullIdentity.Store(false)
 		cleanupSpinBudget.Store(0)
